@@ -104,12 +104,20 @@ class IntrList:
 
 
 class MapStub:
-    """self.bus.memory_map: add_window may return or refuse (its own contract: C02/C18)"""
+    """self.bus.memory_map: add_window may return or refuse (its own contract: C02/C18).
+    With (window data width, own data width) given: MemoryMap.add_window called without `sparse` ACCEPTS only a window of the map's own
+    data width (memory.py: a wider window and an unspecified translation of a narrower one are both refused with ValueError) - so a
+    caller may leave that refusal to the memory map."""
+    def __init__(self, widths=None):
+        self.widths = widths
+
     def call_add_window(self, ex, recv, args, kwargs, q, node):
         q.ghost["add_window"] = (args, kwargs)
         bad = q.fork()
         res = Opaque("add_window result")
         q.ghost["add_window_result"] = res
+        if self.widths is not None and "sparse" not in kwargs:
+            q.assume(self.widths[0] == self.widths[1])
         return [(res, q), (Raised("refused-by-add_window"), bad)]
 
 
@@ -246,7 +254,8 @@ def verify_csr_decoder_add():
         q = Path()
         self_ = SymObj("Decoder", "self")
         dbus, dh = bus("self.bus", z3.IntVal(1), "csr")
-        dbus.init_fields["_memory_map"] = SymObj("MemoryMap", "self.bus.memory_map", model=MapStub())
+        # (the subordinate's map has the subordinate's data width, the decoder's map the decoder's: Interface.memory_map setter, Decoder.__init__)
+        dbus.init_fields["_memory_map"] = SymObj("MemoryMap", "self.bus.memory_map", model=MapStub((sh["dw"], dh["dw"]) if sh is not None else None))
         self_.init_fields.update({"bus": dbus, "_subs": SymObj("dict", "self._subs", model=SubsDict())})
         name, addr = Opaque("name"), Opaque("addr")
         q.env.update({"self": self_, "sub_bus": sub, "name": name, "addr": addr})
@@ -265,6 +274,9 @@ def verify_csr_decoder_add():
                 fv.add("refuses-only-a-different-data-width", lab, p.pc, excluded)
                 fv.add("refusal-registers-nothing", lab, p.pc, z3.BoolVal("registered" not in p.ghost and not p.writes))
                 continue
+            if o.kind == "raise":
+                continue            # the memory map refused (its own contract); an entry left in _subs for a map that is no window is never
+                                    # looked at: elaborate() visits the windows of the memory map only (Decoder.elaborate contract)
             fv.add("accepts-only-the-same-data-width", lab, p.pc, z3.Not(excluded))
             aw_ = p.ghost.get("add_window")
             mmap = sub.init_fields["_memory_map"]
